@@ -374,6 +374,53 @@ type GenOpts struct {
 	Extreme    bool    // extreme field values (C03)
 }
 
+
+// LongReorgHistories: reorganisations that switch the state of more headers than any batching threshold a storage
+// layer is likely to use (100, 500, 1000 bound parameters): one heavy header displacing a long light chain, a long
+// branch overtaking another long branch header by header, and the reorganisation back.
+func LongReorgHistories(thorough bool) []*History {
+	mk := func(id, prev int, bits uint32) Sub {
+		return Sub{ID: id, Prev: prev, Bits: bits, Ver: 1, Merkle: id + 100, TS: uint32(1600000000 + id), Nonce: uint32(id)}
+	}
+	var out []*History
+	// L1: n light headers on genesis, then ONE heavy sibling of the first (demotes n, promotes 1)
+	ns := []int{503}
+	if thorough {
+		ns = append(ns, 101, 1003)
+	}
+	for _, n := range ns {
+		h := &History{}
+		for i := 0; i < n; i++ {
+			h.Subs = append(h.Subs, mk(i+2, i+1, bitsW2))
+		}
+		h.Subs = append(h.Subs, mk(n+2, genesisID, bitsMain))
+		// ... and the light chain continued afterwards stays stale
+		h.Subs = append(h.Subs, mk(n+3, n+1, bitsW2))
+		h.X = []string{"sparse"}
+		out = append(out, h)
+	}
+	// L2: branch a of n headers; branch b forks at height 5 and overtakes a with its last header (demotes n-5,
+	// promotes n-4 headers in one submission); then a is extended by two and takes the chain back
+	n := 507
+	if thorough {
+		n = 1012
+	}
+	h := &History{}
+	for i := 0; i < n; i++ {
+		h.Subs = append(h.Subs, mk(i+2, i+1, bitsW2))
+	}
+	base := n + 2
+	prev := 6 // the header at height 5
+	for i := 0; i < n-4; i++ {
+		h.Subs = append(h.Subs, mk(base+i, prev, bitsW2))
+		prev = base + i
+	}
+	h.Subs = append(h.Subs, mk(base+n, n+1, bitsW2), mk(base+n+1, base+n, bitsW2))
+	h.X = []string{"sparse"}
+	out = append(out, h)
+	return out
+}
+
 // GenHistory draws a random history.
 func GenHistory(r *rand.Rand, o GenOpts) *History {
 	h := &History{}
